@@ -49,7 +49,7 @@ pub enum Node {
     Choice(Vec<Node>),
     Opt(Box<Node>),
     Rep(Box<Node>),
-    // raw AST only (pest_optimizer = false)
+    // raw AST only (pest_optimizer = false); RepOnce also in optimized ASTs of the grammar-extras build
     RepOnce(Box<Node>),
     RepExact(Box<Node>, u32),
     RepMin(Box<Node>, u32),
@@ -118,6 +118,11 @@ fn conv_opt(e: &OptimizedExpr, m: &mut usize) -> Node {
         }
         O::Opt(x) => Node::Opt(Box::new(conv_opt(x, m))),
         O::Rep(x) => Node::Rep(Box::new(conv_opt(x, m))),
+        #[cfg(feature = "grammar-extras")]
+        O::RepOnce(x) => Node::RepOnce(Box::new(conv_opt(x, m))),
+        // a tag is transparent for matching and (with the default options) for the generated structure
+        #[cfg(feature = "grammar-extras")]
+        O::NodeTag(x, _) => conv_opt(x, m),
         O::Skip(s) => Node::Skip(s.clone()),
         O::Push(x) => Node::Push(Box::new(conv_opt(x, m))),
         O::RestoreOnErr(x) => Node::RestoreOnErr(Box::new(conv_opt(x, m))),
@@ -167,6 +172,8 @@ fn conv_raw(e: &Expr, m: &mut usize) -> Node {
         O::RepMinMax(x, a, b) => Node::RepMinMax(Box::new(conv_raw(x, m)), *a, *b),
         O::Skip(s) => Node::Skip(s.clone()),
         O::Push(x) => Node::Push(Box::new(conv_raw(x, m))),
+        #[cfg(feature = "grammar-extras")]
+        O::NodeTag(x, _) => conv_raw(x, m),
     }
 }
 
